@@ -1,8 +1,8 @@
 SPECIFICATION Spec
 CONSTANTS
   Keys = {"a"}
-  MaxLen = 4
-  MaxWrites = 4
+  MaxLen = 2
+  MaxWrites = 3
   MaxSteps = 1000
   MaxPool = 1
   KeepPath = FALSE
@@ -10,7 +10,7 @@ CONSTANTS
   WithReopen = TRUE
   WithCenter = TRUE
   Repaired = TRUE
-  Contents = {{}, {"a"}}
+  Contents = {{}, {"a"}, {"SUF"}}
   SizeClasses = {"s"}
   MaxBig = 0
   WriteLimit = 128
@@ -19,7 +19,6 @@ CONSTANTS
   ReadOptional = TRUE
   Purge = TRUE
 VIEW view
-CONSTRAINT NoRemove
 INVARIANTS TypeOK ReadsConsistent ImplStateAgrees CacheFresh BatchesCarryEveryRecord
 PROPERTIES MergeAndReopenInvisible MemoryInvisible
 CHECK_DEADLOCK FALSE
